@@ -24,14 +24,15 @@ use either::Either;
 use rand_core::RngCore;
 
 use crate::crypto::Crypto;
-use crate::dm::clusters::net_comm::NetworksAccess;
+use crate::dm::clusters::net_comm::{Networks, NetworksAccess};
 use crate::dm::{Cluster, Dataver, InvokeContext, OperationContext, ReadContext, WriteContext};
 use crate::error::{Error, ErrorCode};
-use crate::fabric::FabricPersist;
-use crate::persist::{Persist, NETWORKS_KEY};
+use crate::fabric::Fabric;
+use crate::persist::{KvBlobStore, KvBlobStoreAccess, Persist, FABRIC_KEYS_START, NETWORKS_KEY};
 use crate::sc::pase::MAX_COMM_WINDOW_TIMEOUT_SECS;
-use crate::tlv::{Nullable, Octets, OctetsBuilder, TLVBuilderParent};
+use crate::tlv::{Nullable, Octets, OctetsBuilder, TLVBuilderParent, TLVTag, ToTLV};
 use crate::transport::session::SessionMode;
+use crate::utils::storage::WriteBuf;
 use crate::utils::sync::DynBase;
 use crate::{except, with, MatterState};
 
@@ -205,6 +206,104 @@ impl<'a> GenCommHandler<'a> {
 
             f(state, &mut notify_mdns)
         })
+    }
+
+    /// Persist everything `CommissioningComplete` commits - the network settings and the
+    /// fabric - as one unit: either both end up in the store, or the store is left as it was.
+    ///
+    /// The fail-safe rollback restores the fabric and the network settings from their
+    /// persisted copies, so a half-written commit must not stay in the store: the pre-image
+    /// of the network settings is parked at the end of the scratch buffer and written back
+    /// if the (second) write - the one of the fabric - fails.
+    fn persist_commit(
+        kv: impl KvBlobStoreAccess,
+        networks: impl NetworksAccess,
+        fabric: &Fabric,
+    ) -> Result<(), Error> {
+        kv.access(|kv, buf| {
+            if buf.is_empty() {
+                // A no-op access (e.g. a dummy store with an empty buffer) skips persistence
+                return Ok(());
+            }
+
+            networks.access(|networks| {
+                let was_managed = networks.managed()?;
+                networks.set_managed(true)?;
+
+                let result = Self::persist_commit_with(kv, buf, networks, fabric);
+                if result.is_err() {
+                    networks.set_managed(was_managed)?;
+                }
+
+                result
+            })
+        })
+    }
+
+    fn persist_commit_with(
+        kv: &mut dyn KvBlobStore,
+        buf: &mut [u8],
+        networks: &mut dyn Networks,
+        fabric: &Fabric,
+    ) -> Result<(), Error> {
+        let total = buf.len();
+
+        // Park the currently persisted network settings (if any) at the end of the buffer
+        let base = buf.as_ptr() as usize;
+        let old_networks = kv
+            .load(NETWORKS_KEY, buf)?
+            .map(|data| (data.as_ptr() as usize - base, data.len()));
+        let old_len = old_networks.map(|(_, len)| len).unwrap_or(0);
+        if let Some((offset, len)) = old_networks {
+            buf.copy_within(offset..offset + len, total - len);
+        }
+
+        let (work, old_networks_data) = buf.split_at_mut(total - old_len);
+
+        // First the network settings...
+        let networks_stored = if let Some(len) = networks.save(work)? {
+            let (data, scratch) = work.split_at_mut(len);
+            kv.store(NETWORKS_KEY, data, scratch)?;
+
+            true
+        } else {
+            false
+        };
+
+        // ... then the fabric
+        let result = (|| {
+            let len = {
+                let mut wb = WriteBuf::new(work);
+                fabric.to_tlv(&TLVTag::Anonymous, &mut wb)?;
+                wb.get_tail()
+            };
+
+            let (data, scratch) = work.split_at_mut(len);
+            kv.store(
+                FABRIC_KEYS_START + fabric.fab_idx().get() as u16,
+                data,
+                scratch,
+            )
+        })();
+
+        if result.is_err() && networks_stored {
+            // Put the network settings back, so that the fail-safe rollback does not
+            // "restore" the uncommitted ones
+            let undone = if old_networks.is_some() {
+                kv.store(NETWORKS_KEY, old_networks_data, work)
+            } else {
+                kv.remove(NETWORKS_KEY, work)
+            };
+
+            if let Err(e) = undone {
+                error!(
+                    "Failed to restore the persisted network settings after a failed commit: {:?}",
+                    e
+                );
+            }
+        }
+
+        result
     }
 
     /// Return the node's `RecoveryIdentifier`, minting and persisting a stable
@@ -496,11 +595,18 @@ impl ClusterHandler for GenCommHandler<'_> {
 
         let notify_change = |endpt_id, clust_id| ctx.notify_cluster_changed(endpt_id, clust_id);
 
-        let mut persist = FabricPersist::new(ctx.kv());
-
         let status =
             CommissioningErrorEnum::map(Self::with_armed_failsafe(&ctx, |state, notify_mdns| {
                 let sess = ctx.exchange().id().session(&mut state.sessions);
+
+                // Validate first, and persist the fabric and the network settings *before*
+                // committing anything in memory: if the store fails, the command fails with
+                // the fail-safe still armed, everything still staged and the store unchanged,
+                // so the commissioner might retry, or else the fail-safe timer rolls everything back.
+                let fab_idx = state.failsafe.check_disarm(sess.get_session_mode())?;
+
+                Self::persist_commit(ctx.kv(), ctx.networks(), state.fabrics.fabric(fab_idx)?)?;
+
                 // Spec: on
                 // `CommissioningComplete` the PASE session SHALL be
                 // terminated. The current command is being delivered over
@@ -523,7 +629,7 @@ impl ClusterHandler for GenCommHandler<'_> {
                 let pase_sess_id =
                     matches!(sess.get_session_mode(), SessionMode::Pase { .. }).then(|| sess.id());
 
-                let fabric = state
+                state
                     .failsafe
                     .disarm(sess.get_session_mode(), &mut state.fabrics)?;
 
@@ -531,22 +637,10 @@ impl ClusterHandler for GenCommHandler<'_> {
                 state.sessions.remove_pase(pase_sess_id);
                 ctx.exchange().matter().transport().notify_session_removed();
 
-                // Finally, persist the fabric and the network settings, prior to sending the other party a "success" status
-                persist.store(fabric)?;
-                ctx.networks().access(|networks| {
-                    networks.set_managed(true)?;
-
-                    persist
-                        .persist_mut()
-                        .store(NETWORKS_KEY, |buf| networks.save(buf))
-                })?;
-
                 info!("Commissioning complete, fabric and network settings persisted");
 
                 Ok(())
             }))?;
-
-        persist.run()?;
 
         // Commissioning-complete mutates many clusters on the root endpoint:
         // breadcrumb (this cluster), fabrics (NOC), networks (NetCommissioning).
